@@ -1,6 +1,7 @@
 SPECIFICATION Spec
 CONSTANTS
-  MaxH = 132
+  PlanRows <- QuickRows
+  MaxH = 270
   MaxBlocks = 4
   Maxes <- MCMaxes
   FieldMasks <- MCMasks
